@@ -459,14 +459,16 @@ LEVEL = {
             "limits and both modes; rollback_exact — an add that overflows leaves buffer, compression table and counts exactly as before "
             "(so no pointer into removed bytes), in every reachable state; truncation_prefix — with prefer_truncation the result is byte for "
             "byte the untruncated rendering of the message cut to its first k record sets (whole sets, section order, same OPT/TSIG) with TC "
-            "added iff the first dropped set lies before ADDITIONAL; result_parses_partial — that result parses to that prefix (class of "
-            "C03.parse_render_partial); padding_multiple — with padding the length, TSIG included, is a multiple of the block for every "
+            "added iff the first dropped set lies before ADDITIONAL; truncation_counts_opt_tsig — truncation never drops the OPT or TSIG record "
+            "and the header counts of the truncated result are exactly the records present (ARCOUNT counts OPT and TSIG); result_parses — "
+            "that result parses to that prefix, padding option and TSIG included (class of C03.parse_render_partial: absolute names, not an "
+            "UPDATE); padding_multiple — with padding the length, TSIG included, is a multiple of the block for every "
             "message, limit and mode (the TSIG is rendered against a fresh compression table, so its reserve is exact: repaired D07); "
             "reserve_too_big — OPT+TSIG reserves beyond the limit give TooBig. Tied to the code by correspondence at every limit from 505 to len+2, every pad block in {1..64,128,468} and "
             "step-by-step Renderer traces.",
     "note": "Trusted: Lean kernel + propext/Classical.choice/Quot.sound; the statements in lean/Props/C08.lean; the correspondence "
-            "harness and its generators; harness/extract_C03.py. The TSIG MAC is abstract and fixed-size. Padding with TSIG is tie-only "
-            "(known finding D07 on the unchanged tree).",
+            "harness and its generators; harness/extract_C03.py. The TSIG MAC is abstract and fixed-size. Tie-only: result_parses for "
+            "messages with an origin or of opcode UPDATE (the C03 theorems for those classes are stated for untruncated renderings).",
     "technique": "Lean 4 proof (invariant over the rendering fold; exact-rollback lemma; prefix characterisation) + "
                  "model-vs-implementation correspondence at every limit",
     "design_ref": "DESIGN.md §7 C08",
